@@ -15,6 +15,7 @@ import (
 	"strconv"
 	"strings"
 	"sync"
+	"sync/atomic"
 	"time"
 )
 
@@ -224,7 +225,12 @@ func Discharge(o *Obligation, st *Symtab, cfg *SolverCfg) {
 		return
 	}
 	dischargeWith(ctx, o, st, cfg, query)
+	if !o.Cover && o.Result != "unsat" && !(cfg.NoRetry != nil && cfg.NoRetry(o)) {
+		atomic.AddInt32(&failedSoFar, 1)
+	}
 }
+
+var failedSoFar int32
 
 // dischargeWith: stages 0 (light context), 1 (z3 5.1 on the full query), 1b (goal-directed
 // slices), 2 (race of the three solvers). o.decided records the query text that was decided.
@@ -275,6 +281,13 @@ func dischargeWith(ctx context.Context, o *Obligation, st *Symtab, cfg *SolverCf
 		return
 	}
 	o.Stdout = out
+	// Once several obligations of this run have failed the check's verdict is settled; the rest get
+	// the quick stages only, so that a check on a broken tree ends in minutes, not hours.
+	if atomic.LoadInt32(&failedSoFar) >= 8 {
+		o.Result = res
+		o.Stdout = "undecided by the quick stages; the slower stages were skipped because 8 obligations of this run had already failed all stages | " + firstLines(out, 2)
+		return
+	}
 	// stage 1b: goal-directed slices. Keeping only the assumptions connected to the goal through
 	// shared path symbols (one, two, zero hops) is sound - assumptions are only dropped - and
 	// often decides in a fraction of a second what the full context does not within the limit.
@@ -433,6 +446,10 @@ func DischargeAll(obs []*Obligation, st *Symtab, cfg *SolverCfg, workers int) {
 	cfg2 := *cfg
 	cfg2.QuickTimeout = cfg.FullTimeout
 	cfg2.FullTimeout = 3 * cfg.FullTimeout
+	if atomic.LoadInt32(&failedSoFar) >= 8 {
+		return // settled (see dischargeWith)
+	}
+	atomic.StoreInt32(&failedSoFar, 0)
 	deadline := time.Now().Add(6 * time.Minute)
 	ch2 := make(chan *Obligation)
 	var wg2 sync.WaitGroup
